@@ -17,6 +17,7 @@ import (
 	"errors"
 	"io"
 	"io/fs"
+	"time"
 )
 
 // Crash is the panic value used to simulate a process crash.
@@ -186,3 +187,68 @@ func (f *File) Close() error {
 	f.shut = true
 	return nil
 }
+
+// ---- further package os functions a changed app.go may reach for ----
+
+// Remove deletes a file; like a rename it is atomic and durable in issue order.
+func Remove(path string) error {
+	Cur.event("remove", path, 0)
+	if _, ok := Cur.files[path]; !ok {
+		return &fs.PathError{Op: "remove", Path: path, Err: fs.ErrNotExist}
+	}
+	delete(Cur.files, path)
+	return nil
+}
+
+// ReadFile returns the whole content of a file.
+func ReadFile(path string) ([]byte, error) {
+	f, err := Open(path)
+	if err != nil {
+		return nil, err
+	}
+	defer f.Close()
+	return append([]byte{}, f.n.data...), nil
+}
+
+// WriteFile creates the file and writes data in one write (no sync, as os.WriteFile).
+func WriteFile(path string, data []byte, _ fs.FileMode) error {
+	f, err := Create(path)
+	if err != nil {
+		return err
+	}
+	if _, err := f.Write(data); err != nil {
+		return err
+	}
+	return f.Close()
+}
+
+// MkdirAll: directories are implicit.
+func MkdirAll(string, fs.FileMode) error { return nil }
+
+type fileInfo struct {
+	name string
+	size int64
+}
+
+func (i fileInfo) Name() string       { return i.name }
+func (i fileInfo) Size() int64        { return i.size }
+func (i fileInfo) Mode() fs.FileMode  { return 0o644 }
+func (i fileInfo) ModTime() time.Time { return time.Time{} }
+func (i fileInfo) IsDir() bool        { return false }
+func (i fileInfo) Sys() any           { return nil }
+
+// Stat reports name and size of an existing file.
+func Stat(path string) (fs.FileInfo, error) {
+	Cur.event("stat", path, 0)
+	n, ok := Cur.files[path]
+	if !ok {
+		return nil, &fs.PathError{Op: "stat", Path: path, Err: fs.ErrNotExist}
+	}
+	return fileInfo{name: path, size: int64(len(n.data))}, nil
+}
+
+// FileMode and friends, so that signatures written against package os compile.
+type FileMode = fs.FileMode
+type FileInfo = fs.FileInfo
+
+var ErrExist = fs.ErrExist
